@@ -262,6 +262,35 @@ def explicit_name_cases(binfo, scratch):
     return out
 
 
+def error_count_cases(binfo, scratch):
+    """No injected fault: sources with exactly N reported errors (N around the width of an exit
+    status); a compilation that reports errors writes no outputs, so it must not exit 0."""
+    out = []
+    for n, nfiles in ((255, 1), (256, 1), (512, 1), (128, 2), (257, 1)):
+        files = {}
+        for f in range(nfiles):
+            files["e%d.as" % f] = ('#include "axllib"\n' + "".join("undef%dx%d;\n" % (f, i) for i in range(n))).encode()
+        w = scratch.new()
+        fl = ["-M", "no-emax", "-Fc", "-Ffm", "-Fao"]
+        r = worlds.compile_world(binfo, w, files, fl, sorted(files), cpu=120)
+        vsim.cleanup_world(w)
+        desc = "aldor %s %s (%d undefined identifiers each)" % (" ".join(fl), " ".join(sorted(files)), n)
+        nerr = (r.out + r.err).count(b"(Error)")
+        verdict, detail = None, ""
+        fc = worlds.fault_class(r)
+        if fc:
+            verdict, detail = fc, (r.out + r.err)[-200:].decode("latin-1", "replace")
+        elif r.rc == 0:
+            want = [b + e for b in (x[:-3] for x in files) for e in (".c", ".fm", ".ao")]
+            missing = [x for x in want if x not in r.files]
+            if missing:
+                verdict, detail = "exit0-missing-output", "exit 0 after %d error messages, %s not written" % (nerr, ", ".join(missing))
+        elif not worlds.has_diag(r):
+            verdict, detail = "silent-refusal", "exit %r without a diagnostic" % r.rc
+        out.append((verdict, detail, desc, "errors-%dx%d" % (n, nfiles)))
+    return out
+
+
 def vkey(verdict, plan, detail):
     kinds = "+".join(sorted(set(ev["k"] for ev in plan)))
     cls = "+".join(sorted(set(ev.get("c", "dir") for ev in plan)))
@@ -278,7 +307,7 @@ def main(argv):
 
     with vsim.Scratch("c18") as scratch:
         if replay and "other_directory" in json.load(open(replay)):
-            od = [x for x in other_directory_cases(binfo, scratch) + explicit_name_cases(binfo, scratch) if x[3] == json.load(open(replay))["other_directory"]]
+            od = [x for x in other_directory_cases(binfo, scratch) + explicit_name_cases(binfo, scratch) + error_count_cases(binfo, scratch) if x[3] == json.load(open(replay))["other_directory"]]
             vsim.say("replay: %s" % [(v, d) for v, d, _, _ in od])
             if any(v for v, _, _, _ in od):
                 vsim.say("VIOLATION property=%s replay=%s" % (PID, replay))
@@ -431,11 +460,11 @@ def main(argv):
             out.violations.append({"key": key, "cls": v2, "detail": d2, "replay": rp})
 
         # ---- saved forms in another directory (independent expectation, no fault) -----------
-        od = other_directory_cases(binfo, scratch) + explicit_name_cases(binfo, scratch)
+        od = other_directory_cases(binfo, scratch) + explicit_name_cases(binfo, scratch) + error_count_cases(binfo, scratch)
         for verdict, detail, desc, kind in od:
             if not verdict:
                 continue
-            key = "%s:%s:%s" % (verdict, "explicit-name" if kind.startswith("name-") else "other-directory-input", kind)
+            key = "%s:%s:%s" % (verdict, "explicit-name" if kind.startswith("name-") else "error-count" if kind.startswith("errors-") else "other-directory-input", kind)
             text = out.classify(key)
             if text is not None:
                 out.known.append({"key": key, "text": text})
